@@ -260,7 +260,8 @@ def rule_state(ctx):
     from ..state import per_instance_state, shared_defaults
     n = per_instance_state(ctx, "C09.state", ctx.repo.cls("yowsup/structs/protocoltreenode.py", "ProtocolTreeNode"))
     ctx.units["C09.state_attrs"] = n
-    shared_defaults(ctx, "C09.state", ["yowsup/structs/"])
+    # ... and every converter of an entity: a mutable parameter default that a conversion fills is shared by all stanzas
+    shared_defaults(ctx, "C09.state", ["yowsup/structs/", "yowsup/layers/", "yowsup/common/"])
 
 
 def definitely_str(e):
@@ -389,7 +390,7 @@ def run(ctx):
     ctx.rule("C09.wire", "the codec the stanzas pass through is a round trip (C01.int/class/tags/dbl/pack/unpack adopted)", floor=40)
     ctx.rule("C09.payload", "the payload converter message entities are parsed and re-serialised through is a bijection (C10.bij/has/top adopted)", floor=100)
     ctx.rule("C09.state", "a node's attribute / child containers are fresh per node; no shared default objects in structs", floor=2)
-    ctx.rule("C09.fresh", "containers filled per element inside converter loops are allocated per element", floor=5)
+    ctx.rule("C09.fresh", "containers filled per element inside converter loops are allocated per element", floor=3)
     ctx.rule("C09.ret", "converters return an entity / a node on every path", floor=40)
     ctx.rule("C09.same", "written values are fed by the same (path, key) of the input", floor=40)
     ctx.rule("C09.kept", "stored (path, key) are written back", floor=40)
